@@ -119,127 +119,163 @@ class RefAD:
         if t == "Minus":
             a, b = self.deriv(m[1]), self.deriv(m[2])
             return D(a.d - b.d, a.ed + b.ed + U * (_f(a.d) + _f(b.d)), a.a + b.a)
-        if t == "Multiply":
-            kids = list(m[1])
-            vals = [self._val(c) for c in kids]
-            n = len(kids)
-            terms = []
-            for i, c in enumerate(kids):
-                if not self.has_var(c):
+        terms = [(f, df, self.deriv(c)) for (c, f, df) in local_partials(self.ctx, m) if self.has_var(c)]
+        return self._combine(terms)
+
+
+def _val(ctx, m):
+    r = ctx.eval(m)
+    if r.st != DEFINED:
+        raise AssertionError("RefAD needs a defined point")
+    return r
+
+
+def local_partials(ctx, m):
+    """[(child, f, delta_f)]: the local partial of node m with respect to each child and a bound
+    on the error of computing it in doubles from the children's double values."""
+    t = m[0]
+    if t in ("Constant", "Variable"):
+        return []
+    if t == "Negation":
+        return [(m[1], mpf(-1), 0.0)]
+    if t == "Add":
+        return [(c, mpf(1), 0.0) for c in m[1]]
+    if t == "Minus":
+        return [(m[1], mpf(1), 0.0), (m[2], mpf(-1), 0.0)]
+    if t == "Multiply":
+        kids = list(m[1])
+        vals = [_val(ctx, c) for c in kids]
+        n = len(kids)
+        out = []
+        for i, c in enumerate(kids):
+            f = mpf(1)
+            for j in range(n):
+                if j != i:
+                    f *= vals[j].v
+            df = 0.0
+            for j in range(n):
+                if j == i or not vals[j].eps:
                     continue
-                f = mpf(1)
-                for j in range(n):
-                    if j != i:
-                        f *= vals[j].v
-                df = 0.0
-                for j in range(n):
-                    if j == i or not vals[j].eps:
-                        continue
-                    o = mpf(1)
-                    for k2 in range(n):
-                        if k2 != i and k2 != j:
-                            o *= abs(vals[k2].v) + vals[k2].eps
-                    df += float(o) * vals[j].eps
-                df += (n + 1) * U * _f(f)
-                terms.append((f, df, self.deriv(c)))
-            return self._combine(terms)
-        if t == "Divide":
-            a, b = self._val(m[1]), self._val(m[2])
-            bb = _f(b.v) - b.eps
-            fa = 1 / b.v
-            fb = -a.v / (b.v * b.v)
-            dfa = b.eps / (bb * bb) + 2 * U * _f(fa)
-            dfb = a.eps / (bb * bb) + 2 * (_f(a.v) + a.eps) * b.eps / (bb ** 3) + 4 * U * _f(fb)
-            return self._combine([(fa, dfa, self.deriv(m[1])), (fb, dfb, self.deriv(m[2]))])
-        if t == "Reciprocal":
-            a = self._val(m[1])
-            aa = _f(a.v) - a.eps
-            f = -1 / (a.v * a.v)
-            df = 2 * a.eps / (aa ** 3) + 3 * U * _f(f)
-            return self._combine([(f, df, self.deriv(m[1]))])
-        if t == "NthPower":
-            n = int(m[2])
-            c = self.deriv(m[1])
-            if n == 1:
-                return c
-            a = self._val(m[1])
-            f = n * a.v ** (n - 1)
-            df = (n + 2) * U * _f(f)
-            if n >= 2 and a.eps:
-                df += n * (n - 1) * float((abs(a.v) + a.eps) ** (n - 2)) * a.eps
-            return self._combine([(f, df, c)])
-        if t == "NthRoot":
-            n = int(m[2])
-            c = self.deriv(m[1])
-            if n == 1:
-                return c
-            r = self._val(m)
-            a = self._val(m[1])
-            f = r.v / (n * a.v)
-            self._chk(r.v ** (n - 1))
-            rr = _f(r.v) - r.eps
-            df = _f(f) * (n - 1) * r.eps / rr + (n + 3) * U * _f(f)
-            return self._combine([(f, df, c)])
-        if t == "Exponential":
-            base = m[2]
-            c = self.deriv(m[1])
-            if not _is_e(base) and exact_of(base) == 1:
-                return ZERO
-            r = self._val(m)
-            if _is_e(base):
-                ln_b = mpf(1)
-            else:
-                ln_b = mpmath.log(to_mpf(exact_of(base)))
-            f = ln_b * r.v
-            df = _f(ln_b) * r.eps + 4 * U * _f(f)
-            return self._combine([(f, df, c)])
-        if t == "Logarithm":
-            base = m[2]
-            c = self.deriv(m[1])
-            a = self._val(m[1])
-            if _is_e(base):
-                ln_b = mpf(1)
-            else:
-                ln_b = mpmath.log(to_mpf(exact_of(base)))
-            f = 1 / (a.v * ln_b)
-            aa = _f(a.v) - a.eps
-            df = a.eps / (aa * aa * _f(ln_b)) + 5 * U * _f(f)
-            return self._combine([(f, df, c)])
-        if t == "Cosine":
-            c = self.deriv(m[1])
-            a = self._val(m[1])
-            f = -mpmath.sin(a.v)
-            df = (_f(mpmath.cos(a.v)) + a.eps) * a.eps + 3 * U * _f(f)
-            return self._combine([(f, df, c)])
-        if t == "Sine":
-            c = self.deriv(m[1])
-            a = self._val(m[1])
-            f = mpmath.cos(a.v)
-            df = (_f(mpmath.sin(a.v)) + a.eps) * a.eps + 3 * U * _f(f)
-            return self._combine([(f, df, c)])
-        if t == "Power":
-            a, b = self._val(m[1]), self._val(m[2])
-            r = self._val(m)
-            if not self.has_var(m[1]) and a.q is not None and a.q == 1:
-                return ZERO
-            ln_a = mpmath.log(a.v)
-            aa = _f(a.v) - a.eps
-            terms = []
-            if self.has_var(m[1]):
-                fa = b.v * r.v / a.v
-                faa = _f(b.v * (b.v - 1) * r.v) / (aa * aa)
-                fab = _f(r.v / a.v * (1 + b.v * ln_a))
-                dfa = faa * a.eps + fab * b.eps + (5 + _f(ln_a) * (_f(b.v) + 1)) * U * _f(fa) \
-                    + _f(b.v) / aa * r.eps
-                terms.append((fa, dfa, self.deriv(m[1])))
-            if self.has_var(m[2]):
-                fb = ln_a * r.v
-                fab = _f(r.v / a.v * (1 + b.v * ln_a))
-                fbb = _f(ln_a * ln_a * r.v)
-                dfb = fab * a.eps + fbb * b.eps + 5 * U * _f(fb) + _f(ln_a) * r.eps + a.eps / aa * _f(r.v)
-                terms.append((fb, dfb, self.deriv(m[2])))
-            return self._combine(terms)
-        raise ValueError(f"bad model tag {t!r}")
+                o = mpf(1)
+                for k2 in range(n):
+                    if k2 != i and k2 != j:
+                        o *= abs(vals[k2].v) + vals[k2].eps
+                df += float(o) * vals[j].eps
+            df += (n + 1) * U * _f(f)
+            out.append((c, f, df))
+        return out
+    if t == "Divide":
+        a, b = _val(ctx, m[1]), _val(ctx, m[2])
+        bb = _f(b.v) - b.eps
+        fa = 1 / b.v
+        fb = -a.v / (b.v * b.v)
+        dfa = b.eps / (bb * bb) + 2 * U * _f(fa)
+        dfb = a.eps / (bb * bb) + 2 * (_f(a.v) + a.eps) * b.eps / (bb ** 3) + 4 * U * _f(fb)
+        return [(m[1], fa, dfa), (m[2], fb, dfb)]
+    if t == "Reciprocal":
+        a = _val(ctx, m[1])
+        aa = _f(a.v) - a.eps
+        f = -1 / (a.v * a.v)
+        df = 2 * a.eps / (aa ** 3) + 3 * U * _f(f)
+        return [(m[1], f, df)]
+    if t == "NthPower":
+        n = int(m[2])
+        if n == 1:
+            return [(m[1], mpf(1), 0.0)]
+        a = _val(ctx, m[1])
+        f = n * a.v ** (n - 1)
+        df = (n + 2) * U * _f(f)
+        if a.eps:
+            df += n * (n - 1) * float((abs(a.v) + a.eps) ** (n - 2)) * a.eps
+        return [(m[1], f, df)]
+    if t == "NthRoot":
+        n = int(m[2])
+        if n == 1:
+            return [(m[1], mpf(1), 0.0)]
+        r = _val(ctx, m)
+        a = _val(ctx, m[1])
+        f = r.v / (n * a.v)
+        rr = _f(r.v) - r.eps
+        df = _f(f) * (n - 1) * r.eps / rr + (n + 3) * U * _f(f)
+        # the library divides by n * r^(n-1): that intermediate must stay in range too
+        p = abs(r.v) ** (n - 1)
+        if p != 0 and (p > 1e150 or p < 1e-150):
+            raise DRange()
+        return [(m[1], f, df)]
+    if t == "Exponential":
+        base = m[2]
+        if not _is_e(base) and exact_of(base) == 1:
+            return [(m[1], mpf(0), 0.0)]
+        r = _val(ctx, m)
+        ln_b = mpf(1) if _is_e(base) else mpmath.log(to_mpf(exact_of(base)))
+        f = ln_b * r.v
+        df = _f(ln_b) * r.eps + 4 * U * _f(f)
+        return [(m[1], f, df)]
+    if t == "Logarithm":
+        base = m[2]
+        a = _val(ctx, m[1])
+        ln_b = mpf(1) if _is_e(base) else mpmath.log(to_mpf(exact_of(base)))
+        f = 1 / (a.v * ln_b)
+        aa = _f(a.v) - a.eps
+        df = a.eps / (aa * aa * _f(ln_b)) + 5 * U * _f(f)
+        return [(m[1], f, df)]
+    if t == "Cosine":
+        a = _val(ctx, m[1])
+        f = -mpmath.sin(a.v)
+        df = (_f(mpmath.cos(a.v)) + a.eps) * a.eps + 3 * U * _f(f)
+        return [(m[1], f, df)]
+    if t == "Sine":
+        a = _val(ctx, m[1])
+        f = mpmath.cos(a.v)
+        df = (_f(mpmath.sin(a.v)) + a.eps) * a.eps + 3 * U * _f(f)
+        return [(m[1], f, df)]
+    if t == "Power":
+        a, b = _val(ctx, m[1]), _val(ctx, m[2])
+        r = _val(ctx, m)
+        ln_a = mpmath.log(a.v)
+        aa = _f(a.v) - a.eps
+        fa = b.v * r.v / a.v
+        faa = _f(b.v * (b.v - 1) * r.v) / (aa * aa)
+        fab = _f(r.v / a.v * (1 + b.v * ln_a))
+        dfa = faa * a.eps + fab * b.eps + (5 + _f(ln_a) * (_f(b.v) + 1)) * U * _f(fa) + _f(b.v) / aa * r.eps
+        fb = ln_a * r.v
+        fbb = _f(ln_a * ln_a * r.v)
+        dfb = fab * a.eps + fbb * b.eps + 5 * U * _f(fb) + _f(ln_a) * r.eps + a.eps / aa * _f(r.v)
+        return [(m[1], fa, dfa), (m[2], fb, dfb)]
+    raise ValueError(f"bad model tag {t!r}")
+
+
+def reverse_sweep(ctx, m, lo=1e-150, hi=1e150):
+    """Reverse-mode gradient in mpmath: dict var -> mpf.  Raises DRange when a multiplier
+    (d root / d node) or a contribution leaves [lo, hi]: reverse mode materialises those."""
+    order = []
+    seen = set()
+
+    def topo(x):
+        if id(x) in seen:
+            return
+        seen.add(id(x))
+        for c in M.children(x):
+            topo(c)
+        order.append(x)
+    topo(m)
+    mult = {id(x): mpf(0) for x in order}
+    mult[id(m)] = mpf(1)
+    grad = {}
+    for x in reversed(order):
+        mk = mult[id(x)]
+        if x[0] == "Variable":
+            grad[x[1]] = grad.get(x[1], mpf(0)) + mk
+            continue
+        if mk == 0:
+            continue
+        for (c, f, _df) in local_partials(ctx, x):
+            contrib = mk * f
+            a = abs(contrib)
+            if a != 0 and (a > hi or a < lo):
+                raise DRange()
+            mult[id(c)] += contrib
+    return grad
 
 
 def partial(m, env, var, ctx=None, **kw):
@@ -251,20 +287,22 @@ def partial(m, env, var, ctx=None, **kw):
     return ad.deriv(m)
 
 
-def central_difference(m, env, var, h_rel=Fraction(1, 10 ** 20)):
-    """50-digit central difference quotient: the derivative by definition, independent of any
-    differentiation rule.  Returns mpf or None when p +/- h is not decidedly inside the domain."""
+def central_difference(m, env, var):
+    """High-precision central difference quotient: the derivative by definition, independent of
+    any differentiation rule.  Returns mpf or None when p +/- h is not decidedly inside the domain."""
     p = Fraction(env[var])
-    h = h_rel * max(1, abs(p))
-    vals = []
-    for s in (1, -1):
-        e2 = dict(env)
-        e2[var] = p + s * h
-        r = RefEval(e2, lo=0.0, hi=math.inf).eval(m)
-        if r.st != DEFINED:
-            return None
-        vals.append(r.v)
-    return (vals[0] - vals[1]) / (2 * to_mpf(h))
+    h = Fraction(1, 10 ** 100) * max(abs(p), Fraction(1, 10 ** 100))
+    with mpmath.workdps(260):
+        vals = []
+        for s in (1, -1):
+            e2 = dict(env)
+            e2[var] = p + s * h
+            r = RefEval(e2, lo=0.0, hi=math.inf).eval(m)
+            if r.st != DEFINED:
+                return None
+            vals.append(r.v)
+        q = (vals[0] - vals[1]) / (2 * to_mpf(h))
+    return +q
 
 
 # ---------------------------------------------------------------------------------------------
@@ -339,20 +377,18 @@ def exact_budget_ok(m, env):
     evaluation B, with denominators dividing 2^(kmax * degree)."""
     if not is_polynomial_fragment(m):
         return False
-    kmax = 0
-    for x in M.subterms(m):
-        if x[0] == "Constant":
-            fr = Fraction(x[1])
-        elif x[0] == "Variable":
-            if x[1] not in env:
-                return False
-            fr = Fraction(env[x[1]])
-        else:
-            continue
+    def leaf_k(fr):
         d = fr.denominator
         if d & (d - 1):
-            return False
-        kmax = max(kmax, d.bit_length() - 1)
+            return None
+        return d.bit_length() - 1
+    for x in M.subterms(m):
+        if x[0] == "Constant":
+            if leaf_k(Fraction(x[1])) is None:
+                return False
+        elif x[0] == "Variable":
+            if x[1] not in env or leaf_k(Fraction(env[x[1]])) is None:
+                return False
     order = []
     seen = set()
 
@@ -372,9 +408,9 @@ def exact_budget_ok(m, env):
         k = id(x)
         cs = M.children(x)
         if t == "Constant":
-            W[k], DEG[k], A[k] = abs(Fraction(x[1])), 0, 0
+            W[k], DEG[k], A[k] = abs(Fraction(x[1])), leaf_k(Fraction(x[1])), 0
         elif t == "Variable":
-            W[k], DEG[k], A[k] = abs(Fraction(env[x[1]])), 1, 1
+            W[k], DEG[k], A[k] = abs(Fraction(env[x[1]])), leaf_k(Fraction(env[x[1]])), 1
         elif t in ("Add", "Minus"):
             W[k] = sum(W[id(c)] for c in cs)
             DEG[k] = max([DEG[id(c)] for c in cs], default=0)
@@ -418,5 +454,9 @@ def exact_budget_ok(m, env):
         bound = max(bound, mk, mk * max(W[k], 1))
         if bound > LIMIT:
             return False
-    deg = max(DEG[id(m)], 1)
-    return bound * (2 ** (kmax * (deg + 1))) < 2 ** 52
+    # DEG[.] is an upper bound K on log2(denominator) of every monomial; every intermediate X of
+    # either mode satisfies: X * 2^K is an integer of magnitude <= bound * 2^K.
+    kk = DEG[id(m)]
+    if kk > 60:
+        return False
+    return bound * (2 ** kk) < 2 ** 52
